@@ -1,5 +1,4 @@
 package harness
 
 // placeholders until the dedicated scenarios are written
-func ExecuteCorrupt(spec *RunSpec, opts RunOpts) *RunResult { panic("S-CORRUPT not built yet") }
 func ExecuteShare(spec *RunSpec, opts RunOpts) *RunResult   { panic("S-SHARE not built yet") }
